@@ -63,4 +63,10 @@ ExtractionOK(r, p, y) ==
   /\ X[2][1] * C(y) = X[1][1] * S(y) /\ X[2][1] * S(y) + X[1][1] * C(y) > 0
 (* the derivative of an orthogonal family is skew after multiplication by R^T: R^T dR + (R^T dR)^T = 0 *)
 SkewOK(X, DX) == LET M == MatMul(Transpose(X), DX) IN MatAdd(M, Transpose(M)) = Scaled(0, M)
+(* ---- generic (non-lattice) inputs: the same consistency relations, checked on residuals measured by the harness in units of  *)
+(* 1e-12 (integers, capped): orthogonality and determinant of every produced matrix, agreement of the matrix, quaternion and     *)
+(* SmartRotation3D paths with the closed form Rz Ry Rx, angles -> rotation -> angles and rotation -> angles -> rotation round    *)
+(* trips modulo 2 pi, normalisers congruent and inside their interval, 2D pair, polar / spherical round trips (relative).        *)
+ResidualBound(isFloat) == IF isFloat THEN 100000000 ELSE 1000            \* 1e-4 (float) / 1e-9 (double)
+ResidualsOK(res, isFloat) == \A i \in 1..Len(res) : res[i] <= ResidualBound(isFloat)
 =============================================================================
